@@ -4,6 +4,9 @@ theories/Spec/BV.vos theories/Spec/BV.vok theories/Spec/BV.required_vos: theorie
 theories/Spec/Eval.vo theories/Spec/Eval.glob theories/Spec/Eval.v.beautified theories/Spec/Eval.required_vo: theories/Spec/Eval.v theories/Model/Expr.vo
 theories/Spec/Eval.vio: theories/Spec/Eval.v theories/Model/Expr.vio
 theories/Spec/Eval.vos theories/Spec/Eval.vok theories/Spec/Eval.required_vos: theories/Spec/Eval.v theories/Model/Expr.vos
+theories/Spec/SysClosed.vo theories/Spec/SysClosed.glob theories/Spec/SysClosed.v.beautified theories/Spec/SysClosed.required_vo: theories/Spec/SysClosed.v theories/Spec/System.vo
+theories/Spec/SysClosed.vio: theories/Spec/SysClosed.v theories/Spec/System.vio
+theories/Spec/SysClosed.vos theories/Spec/SysClosed.vok theories/Spec/SysClosed.required_vos: theories/Spec/SysClosed.v theories/Spec/System.vos
 theories/Spec/System.vo theories/Spec/System.glob theories/Spec/System.v.beautified theories/Spec/System.required_vo: theories/Spec/System.v theories/Spec/Eval.vo
 theories/Spec/System.vio: theories/Spec/System.v theories/Spec/Eval.vio
 theories/Spec/System.vos theories/Spec/System.vok theories/Spec/System.required_vos: theories/Spec/System.v theories/Spec/Eval.vos
@@ -22,6 +25,18 @@ theories/Model/Simplify.vos theories/Model/Simplify.vok theories/Model/Simplify.
 theories/Proofs/BVLemmas.vo theories/Proofs/BVLemmas.glob theories/Proofs/BVLemmas.v.beautified theories/Proofs/BVLemmas.required_vo: theories/Proofs/BVLemmas.v theories/Spec/BV.vo
 theories/Proofs/BVLemmas.vio: theories/Proofs/BVLemmas.v theories/Spec/BV.vio
 theories/Proofs/BVLemmas.vos theories/Proofs/BVLemmas.vok theories/Proofs/BVLemmas.required_vos: theories/Proofs/BVLemmas.v theories/Spec/BV.vos
+theories/Proofs/Btor2ExprFacts.vo theories/Proofs/Btor2ExprFacts.glob theories/Proofs/Btor2ExprFacts.v.beautified theories/Proofs/Btor2ExprFacts.required_vo: theories/Proofs/Btor2ExprFacts.v theories/Model/Expr.vo theories/Proofs/ExprLemmas.vo theories/Spec/SysClosed.vo theories/Model/Btor2Parse.vo
+theories/Proofs/Btor2ExprFacts.vio: theories/Proofs/Btor2ExprFacts.v theories/Model/Expr.vio theories/Proofs/ExprLemmas.vio theories/Spec/SysClosed.vio theories/Model/Btor2Parse.vio
+theories/Proofs/Btor2ExprFacts.vos theories/Proofs/Btor2ExprFacts.vok theories/Proofs/Btor2ExprFacts.required_vos: theories/Proofs/Btor2ExprFacts.v theories/Model/Expr.vos theories/Proofs/ExprLemmas.vos theories/Spec/SysClosed.vos theories/Model/Btor2Parse.vos
+theories/Proofs/Btor2NoCrash.vo theories/Proofs/Btor2NoCrash.glob theories/Proofs/Btor2NoCrash.v.beautified theories/Proofs/Btor2NoCrash.required_vo: theories/Proofs/Btor2NoCrash.v theories/Model/Expr.vo theories/Proofs/ExprLemmas.vo theories/Spec/SysClosed.vo theories/Model/Btor2Parse.vo theories/Proofs/Btor2ExprFacts.vo theories/Proofs/Btor2ParseProofs.vo theories/Proofs/Btor2Refine.vo
+theories/Proofs/Btor2NoCrash.vio: theories/Proofs/Btor2NoCrash.v theories/Model/Expr.vio theories/Proofs/ExprLemmas.vio theories/Spec/SysClosed.vio theories/Model/Btor2Parse.vio theories/Proofs/Btor2ExprFacts.vio theories/Proofs/Btor2ParseProofs.vio theories/Proofs/Btor2Refine.vio
+theories/Proofs/Btor2NoCrash.vos theories/Proofs/Btor2NoCrash.vok theories/Proofs/Btor2NoCrash.required_vos: theories/Proofs/Btor2NoCrash.v theories/Model/Expr.vos theories/Proofs/ExprLemmas.vos theories/Spec/SysClosed.vos theories/Model/Btor2Parse.vos theories/Proofs/Btor2ExprFacts.vos theories/Proofs/Btor2ParseProofs.vos theories/Proofs/Btor2Refine.vos
+theories/Proofs/Btor2ParseProofs.vo theories/Proofs/Btor2ParseProofs.glob theories/Proofs/Btor2ParseProofs.v.beautified theories/Proofs/Btor2ParseProofs.required_vo: theories/Proofs/Btor2ParseProofs.v theories/Model/Expr.vo theories/Proofs/ExprLemmas.vo theories/Spec/SysClosed.vo theories/Model/Btor2Parse.vo theories/Proofs/Btor2ExprFacts.vo
+theories/Proofs/Btor2ParseProofs.vio: theories/Proofs/Btor2ParseProofs.v theories/Model/Expr.vio theories/Proofs/ExprLemmas.vio theories/Spec/SysClosed.vio theories/Model/Btor2Parse.vio theories/Proofs/Btor2ExprFacts.vio
+theories/Proofs/Btor2ParseProofs.vos theories/Proofs/Btor2ParseProofs.vok theories/Proofs/Btor2ParseProofs.required_vos: theories/Proofs/Btor2ParseProofs.v theories/Model/Expr.vos theories/Proofs/ExprLemmas.vos theories/Spec/SysClosed.vos theories/Model/Btor2Parse.vos theories/Proofs/Btor2ExprFacts.vos
+theories/Proofs/Btor2Refine.vo theories/Proofs/Btor2Refine.glob theories/Proofs/Btor2Refine.v.beautified theories/Proofs/Btor2Refine.required_vo: theories/Proofs/Btor2Refine.v theories/Model/Expr.vo theories/Model/Btor2Parse.vo
+theories/Proofs/Btor2Refine.vio: theories/Proofs/Btor2Refine.v theories/Model/Expr.vio theories/Model/Btor2Parse.vio
+theories/Proofs/Btor2Refine.vos theories/Proofs/Btor2Refine.vok theories/Proofs/Btor2Refine.required_vos: theories/Proofs/Btor2Refine.v theories/Model/Expr.vos theories/Model/Btor2Parse.vos
 theories/Proofs/Btor2Witness.vo theories/Proofs/Btor2Witness.glob theories/Proofs/Btor2Witness.v.beautified theories/Proofs/Btor2Witness.required_vo: theories/Proofs/Btor2Witness.v theories/Model/Btor2Parse.vo
 theories/Proofs/Btor2Witness.vio: theories/Proofs/Btor2Witness.v theories/Model/Btor2Parse.vio
 theories/Proofs/Btor2Witness.vos theories/Proofs/Btor2Witness.vok theories/Proofs/Btor2Witness.required_vos: theories/Proofs/Btor2Witness.v theories/Model/Btor2Parse.vos
@@ -37,6 +52,6 @@ theories/Proofs/ExprLemmas.vos theories/Proofs/ExprLemmas.vok theories/Proofs/Ex
 theories/Props/C06.vo theories/Props/C06.glob theories/Props/C06.v.beautified theories/Props/C06.required_vo: theories/Props/C06.v theories/Model/EvalImpl.vo theories/Proofs/EvalProofs.vo theories/Proofs/EvalImplProofs.vo
 theories/Props/C06.vio: theories/Props/C06.v theories/Model/EvalImpl.vio theories/Proofs/EvalProofs.vio theories/Proofs/EvalImplProofs.vio
 theories/Props/C06.vos theories/Props/C06.vok theories/Props/C06.required_vos: theories/Props/C06.v theories/Model/EvalImpl.vos theories/Proofs/EvalProofs.vos theories/Proofs/EvalImplProofs.vos
-theories/Props/C18.vo theories/Props/C18.glob theories/Props/C18.v.beautified theories/Props/C18.required_vo: theories/Props/C18.v theories/Model/Btor2Parse.vo theories/Proofs/Btor2Witness.vo
-theories/Props/C18.vio: theories/Props/C18.v theories/Model/Btor2Parse.vio theories/Proofs/Btor2Witness.vio
-theories/Props/C18.vos theories/Props/C18.vok theories/Props/C18.required_vos: theories/Props/C18.v theories/Model/Btor2Parse.vos theories/Proofs/Btor2Witness.vos
+theories/Props/C18.vo theories/Props/C18.glob theories/Props/C18.v.beautified theories/Props/C18.required_vo: theories/Props/C18.v theories/Spec/SysClosed.vo theories/Model/Btor2Parse.vo theories/Proofs/Btor2Witness.vo theories/Proofs/Btor2ParseProofs.vo theories/Proofs/Btor2Refine.vo theories/Proofs/Btor2NoCrash.vo
+theories/Props/C18.vio: theories/Props/C18.v theories/Spec/SysClosed.vio theories/Model/Btor2Parse.vio theories/Proofs/Btor2Witness.vio theories/Proofs/Btor2ParseProofs.vio theories/Proofs/Btor2Refine.vio theories/Proofs/Btor2NoCrash.vio
+theories/Props/C18.vos theories/Props/C18.vok theories/Props/C18.required_vos: theories/Props/C18.v theories/Spec/SysClosed.vos theories/Model/Btor2Parse.vos theories/Proofs/Btor2Witness.vos theories/Proofs/Btor2ParseProofs.vos theories/Proofs/Btor2Refine.vos theories/Proofs/Btor2NoCrash.vos
